@@ -164,6 +164,13 @@ impl Monitor for C20 {
         cfg.p_fav = 60;
         cfg.p_rank = 50;
         let (u, p) = gener::generate(r, &cfg);
+        // one case in 150: ids spread over a huge range (hint bit vectors, id-indexed tables)
+        let (name, (u, p)) = if r.chance(1, 600) && !crate::report::small() {
+            let perms = gener::huge_perms(&u, r);
+            ("huge-ids", u.renumber(&p, &perms[0], &perms[1], &perms[2], &perms[3], &perms[4]))
+        } else {
+            (name, (u, p))
+        };
         let mut queries = vec![];
         for _ in 0..40 {
             let q = match r.below(8) {
